@@ -174,7 +174,7 @@ func init() {
 		tcodec := []string{"proto", "json", "alt"}[c.Free("target-codec", 3)]
 		comp := []string{"", "gzip"}[c.Free("compression", 2)]
 		msg := MkMsg(c19Msgs[c.Free("message", len(c19Msgs))])
-		delta := c.Free("limit-delta", 4)      // 0: generous, 1: exact-1, 2: exact, 3: exact+1
+		delta := c.Free("limit-delta", 7)      // 0: generous, 1: exact-1, 2: exact, 3: exact+1; limits no URL can meet: 4: 1, 5: length of the path, 6: length of the path + 1
 		spelling := c.Free("path-spelling", 2) // 1: the client percent-escapes unreserved characters of the RPC path
 		if cl.form == wire.REST && (m.name != "Pure" || ccodec != "json") {
 			c.Skip()
@@ -290,6 +290,11 @@ func init() {
 		}
 		exact := c19WireLen(be0.Seen)
 		limit := uint32(exact + delta - 2)
+		if delta >= 4 {
+			// a limit smaller than any possible URL ("never use GET"): arithmetic on the limit must not wrap
+			pathLen := exact - 1 - len(be0.Seen.RawQuery)
+			limit = []uint32{1, uint32(pathLen), uint32(pathLen + 1)}[delta-4]
+		}
 		be1, ex1 := run(limit)
 		if be1 == nil {
 			return
@@ -307,7 +312,7 @@ func init() {
 		ID:    "C19",
 		Level: "exploration",
 		Rule: "Accept side (exhaustive cross): 7 methods (idempotency unset / NO_SIDE_EFFECTS / IDEMPOTENT / no rule / server, client and bidi streams) x HTTP methods {GET, POST, PUT, HEAD, DELETE} x client codec {proto, json, alt} x compression {none, gzip} x base64 {absent, 0, 1 unpadded, 1 padded} x 5 messages x 3 target protocols; an accepted GET is compared with the POST carrying the same content. " +
-			"Issue side (exhaustive cross): 5 client forms x 3 methods x client codec x target codec {proto, json, alt (not stable)} x compression x 5 messages x max-GET-URL in {generous, exact-1, exact, exact+1} where exact is the length of the URL actually issued. Non-trivial = cases failing exactly one GET precondition or within +-1 of the URL limit.",
+			"Issue side (exhaustive cross): 5 client forms x 3 methods x client codec x target codec {proto, json, alt (not stable)} x compression x 5 messages x max-GET-URL in {generous, exact-1, exact, exact+1, 1, length of the path, length of the path + 1} where exact is the length of the URL actually issued. Non-trivial = cases failing exactly one GET precondition or within +-1 of the URL limit.",
 		Assume: []string{"requests forwarded untouched (same protocol, codec and compression) are C13's business, not judged against the URL limit"},
 		Scenarios: []Scenario{
 			{Name: "accept-get", Fn: accept, QuickBound: 0, ThoroughBound: 0},
